@@ -592,3 +592,28 @@ func paramsNonEmpty(c *an.Ctx, exec *ssa.Function) (bool, string) {
 	}
 	return true, ""
 }
+
+// edgesWhere lists the branch edges on which a fact satisfying pred becomes known (directly, or through a boolean
+// that was computed first: `gone := ch.ephemeral && ch.Exiting(); if gone {…}`).
+func edgesWhere(fn *ssa.Function, pred func(an.Fact) bool) []an.Edge {
+	var out []an.Edge
+	for _, b := range fn.Blocks {
+		if len(b.Instrs) == 0 || len(b.Succs) != 2 || b.Succs[0] == b.Succs[1] {
+			continue
+		}
+		ifi, ok := b.Instrs[len(b.Instrs)-1].(*ssa.If)
+		if !ok {
+			continue
+		}
+		for _, s := range b.Succs {
+			e := an.Edge{From: b, To: s}
+			for _, f := range an.FactsOnEdge(e) {
+				if f.If == ifi && pred(f) {
+					out = append(out, e)
+					break
+				}
+			}
+		}
+	}
+	return out
+}
